@@ -212,7 +212,10 @@ class RT:
             it = it.to_seq()
         if isinstance(it, (SymSeq, SymRange)):
             if kind == "dict":
-                raise Unsupported("dict comprehension over an abstract iterable")
+                f = self.literals.get("dictcomp")
+                if f is None:
+                    raise Unsupported("dict comprehension over an abstract iterable")
+                return f(fn, it, flt)
             lm = LazyMap(kind, fn, it, flt)
             if kind == "list" and flt is None:
                 return lm.to_seq()
@@ -232,6 +235,13 @@ class RT:
     def new_dict(self):
         f = self.literals.get("dict")
         return f() if f else SymDict()
+
+    def new_set(self, elts):
+        """set display {a, b}: a real set when every element is concrete, else the sidecar's set factory"""
+        f = self.literals.get("set")
+        if f is not None and any(isinstance(x, Sym) or (isinstance(x, tuple) and any(isinstance(y, Sym) for y in x)) for x in elts):
+            return f(elts)
+        return set(elts)
 
     def new_list(self):
         f = self.literals.get("list")
